@@ -248,12 +248,28 @@ def run(tier, seed):
     traces += tr_cov["tlc_validated_traces"]
     replayed += tr_cov["replayed_actions"]
     n_new, n_known = verdict.report("C20", viol)
+    # EXTENSION beyond the components C20 names: the Reptile meta-learning callback (Reptile.tla / ReptileTrace.tla), a training-
+    # history mechanism of the same family.  C20's statement does not speak about it, so its discrepancies are never a C20
+    # verdict: they are printed as EXTENSION-NOTE lines and kept in the evidence.
+    from . import c20b_reptile
+    try:
+        rv, rcov = c20b_reptile.violations(tier, seed)
+    except Exception as ex:  # noqa: BLE001
+        rv, rcov = [], {"states": 0, "transitions": 0, "replayed": 0, "error": repr(ex)[:300]}
+    seen = set()
+    for v in rv:
+        key = (v["env"], v["monitor"])
+        if key not in seen:
+            seen.add(key)
+            print("EXTENSION-NOTE reptile %s / %s: %s" % (v["env"], v["monitor"], str(v.get("detail", ""))[:240]))
     from . import unbounded
     unb = unbounded.for_property("C20", tier)      # Apalache / TLAPS: warm-up schedule, epoch protocol, EMA closed form, unbounded
     cov = {"states": states, "transitions": transitions, "traces_validated_against_impl": replayed + traces,
            "training_run": {k: tr_cov[k] for k in ("replayed_runs", "replayed_actions", "tlc_validated_traces", "fit_runs", "models")},
            "samples": samples[:6], "exhaustive": True, "replayed_calls": replayed, "real_histories": traces,
            "model_constants": CONFIGS[tier], "known_finding_witnesses": n_known, "unbounded": unb,
+           "extension_reptile": {"coverage": {k: v for k, v in rcov.items() if k not in ("samples",)},
+                                 "notes": sorted({"%s / %s" % (v["env"], v["monitor"]) for v in rv})},
            "explanation": "Stats.tla (Welford / EMA / warm-up as exact-rational state machines) model-checked for all histories "
                           "of the scope; each history replayed into the real classes with state comparison after every call; "
                           "random longer histories of the real classes validated by StatsTrace.tla. "
